@@ -14,6 +14,15 @@ def chk(pid, text, note, design, technique='deductive verification: ast->VC gene
     }
 
 CHECKS = [
+    chk("C01", "Contracts on the real annotation-application functions (_apply_annotations_param_ret_common, "
+        "_apply_transfer_annotation, _is_pointer_type): every clause of the property for direction, caller-allocation, "
+        "nullable/optional/not, skip, doc and transfer validity is a named obligation discharged for all field valuations.",
+        "Trusted: givc, schema, Transformer lookups (uninterpreted), _resolve_toplevel and _adjust_container_type by assumed "
+        "contract (array/element-type/closure/destroy and GIR emission not yet under contract).", "DESIGN.md section 4 C01"),
+    chk("C11", "Counting half: MessageLogger.log and every module-level logging entry point increment the diagnostic counter "
+        "exactly once on every exit (suppressed, printed, SystemExit for fatal).",
+        "Trusted: givc, schema, MessageLogger.get singleton, Position.format. Parser exception-freedom, positions and the "
+        "warn_fatal gate are not yet under contract.", "DESIGN.md section 4 C11"),
     chk("C13", "Contract on the real Transformer._create_const: typing clauses and the unsigned-wrap range clause are "
         "integer/string VCs discharged for all symbols; counter-models are replayed natively.",
         "Trusted: givc, schema, assumed contracts for _strip_symbol/_create_type_from_base/_resolve_type_from_ctype/"
